@@ -79,7 +79,9 @@ ASSUME Deviations \subseteq OpenDeviations /\ CheckDeviations \subseteq AllDevia
 ReqTokens == {"a1", "a2", "hop", "ckO", "ckS", "ckB", "ckD", "xff", "fwd", "xri", "xfproto", "xfport",
               "rid1", "rid2", "corr", "cClose", "cKA", "cHop", "teTr", "teGz", "upg",
               "pconn", "ka", "h2s", "cUpg", "tenc"}
-TrTokens  == {"tPlain", "tXri", "tXff", "tFwd", "tRid", "tCorr"}
+\* "tKA": a connection-specific name in an HTTP/1.1 chunked trailer section (HTTP/1.1 fronts only: in an HTTP/2
+\* trailer block it makes the request malformed after its header block was forwarded - C02/C03's domain)
+TrTokens  == {"tPlain", "tXri", "tXff", "tFwd", "tRid", "tCorr", "tKA"}
 RespTokens == {"r1", "r2", "sc", "sts", "rcorr", "rClose",
                "rKA", "rPconn", "rUpg", "rTenc", "rCHop", "rHop"}
 
@@ -97,7 +99,7 @@ Name(t) ==
     [] t \in {"teTr", "teGz"}      -> "te"
     [] t \in {"upg", "rUpg"}       -> "upgrade"
     [] t \in {"pconn", "rPconn"}   -> "proxy-connection"
-    [] t \in {"ka", "rKA"}         -> "keep-alive"
+    [] t \in {"ka", "rKA", "tKA"}  -> "keep-alive"
     [] t \in {"tenc", "rTenc"}     -> "transfer-encoding"
     [] t = "h2s"                   -> "http2-settings"
     [] t = "rHop"                  -> "x-rhop"
@@ -238,7 +240,8 @@ TrailerDropped(D, k, t) ==
   IF k.fp.front = "h2"
   THEN \/ Name(t) \in {"x-real-ip", "x-forwarded-for", "forwarded", "x-request-id"}
        \/ (Name(t) = "CORR" /\ "TrailerCorr" \notin D)
-  ELSE Name(t) \in IdentityNames /\ "H1TrailerIdentity" \notin D
+  ELSE \/ (Name(t) \in IdentityNames /\ "H1TrailerIdentity" \notin D)
+       \/ (k.back = "h2c" /\ Name(t) \in NoCrossNames)      \* trailers pass the same converter as headers
 TrailersOut(D, k, tr) ==
   LET kept == SelectSeq(tr, LAMBDA t : ~TrailerDropped(D, k, t))
   IN [i \in DOMAIN kept |-> El(Name(kept[i]), <<Tok(kept[i])>>, "client")]
@@ -350,7 +353,9 @@ P_Request(D, k, req, tr) ==
     /\ NoConnSpecificOnH2(k, req, o.hdrs)
     /\ SpoofFree(k, req, o.hdrs)
     /\ \A i \in DOMAIN o.trailers : o.trailers[i].n \notin IdentityNames
-    /\ IsSubSeq(SelectSeq(tr, LAMBDA t : Name(t) \notin IdentityNames), [i \in DOMAIN o.trailers |-> o.trailers[i].v[1].x])
+    /\ k.back = "h2c" => \A i \in DOMAIN o.trailers : o.trailers[i].n \notin NoCrossNames
+    /\ IsSubSeq(SelectSeq(tr, LAMBDA t : Name(t) \notin IdentityNames /\ ~(k.back = "h2c" /\ Name(t) \in NoCrossNames)),
+                [i \in DOMAIN o.trailers |-> o.trailers[i].v[1].x])
 
 \* responses reach the client intact plus only the documented additions
 AllowedRespAdditions(k, req, resp) ==
@@ -424,7 +429,7 @@ Next ==
   \/ /\ c.f = "tr" /\ c.tr = <<>> /\ Len(c.req) < 1
      /\ \E t \in ReqTokens : c' = [c EXCEPT !.req = Append(@, t)]
   \/ /\ c.f = "tr" /\ Len(c.tr) < MaxTr
-     /\ \E t \in TrTokens : c' = [c EXCEPT !.tr = Append(@, t)]
+     /\ \E t \in TrTokens : (t = "tKA" => c.k.fp.front = "h1") /\ c' = [c EXCEPT !.tr = Append(@, t)]
   \/ /\ c.f = "resp" /\ c.req = <<>> /\ c.resp = <<>>
      /\ \E r \in ReqFocusReqs \ {<<>>} : c' = [c EXCEPT !.req = r]
   \/ /\ c.f = "resp" /\ Len(c.resp) < MaxResp
